@@ -636,8 +636,26 @@ func TestC06Blocked(t *testing.T) {
 			nwant = 2
 		}
 		done := make(chan rres, 1)
+		// the relay's client-to-backend direction is either a loop of Reads or io.Copy(backend,
+		// conn), which takes the Conn's io.WriterTo when it has one
+		viaCopy := rapid.Bool().Draw(t, "reader_is_io_copy")
 		go func() {
 			var r rres
+			if viaCopy {
+				var sink bytes.Buffer
+				r.err = guard(func() error { _, e := io.Copy(&sink, c); return e })
+				for b := sink.Bytes(); len(b) >= 5; {
+					l := 5 + (int(b[3])<<8 | int(b[4]))
+					if l > len(b) {
+						r.recs = append(r.recs, b) // a torso: reported as it is
+						break
+					}
+					r.recs = append(r.recs, b[:l])
+					b = b[l:]
+				}
+				done <- r
+				return
+			}
 			for len(r.recs) < nwant {
 				var got []byte
 				e := guard(func() error { var e error; got, e = readOneRecord(c); return e })
@@ -671,6 +689,9 @@ func TestC06Blocked(t *testing.T) {
 					tr.Feed(hello.Record(20, 0x0303, []byte{1}))
 				}
 				tr.Feed(hello2)
+				if viaCopy {
+					tr.Finish(io.EOF)
+				}
 				select {
 				case r = <-done:
 					gotEarly = true
@@ -705,6 +726,9 @@ func TestC06Blocked(t *testing.T) {
 				tr.Feed(hello.Record(20, 0x0303, []byte{1}))
 			}
 			tr.Feed(hello2)
+			if viaCopy {
+				tr.Finish(io.EOF)
+			}
 		}
 		if !gotEarly {
 			select {
